@@ -207,6 +207,7 @@ def report(plan, tier, seed, results, infra_msgs, wall, get_trace, update_baseli
     violations = []
     known = []
     undecided = list(infra_msgs)
+    attempts = []
     jobs_ev = []
     n_obl = n_dis = 0
     nb_obl = nb_dis = 0
@@ -226,7 +227,9 @@ def report(plan, tier, seed, results, infra_msgs, wall, get_trace, update_baseli
         if r.status == 'proved' and not update_baseline and j.name in btier and nobl < 0.8 * btier[j.name]:
             r.status = 'undecided'
             r.reason = 'obligation count dropped from %d to %d (vacuity guard)' % (btier[j.name], nobl)
-        if r.status == 'undecided':
+        if r.status == 'undecided' and j.optional:
+            attempts.append('%s: %s' % (j.name, r.reason))
+        elif r.status == 'undecided':
             undecided.append('%s: %s' % (j.name, r.reason))
         if j.cls in ('P', 'W'):
             n_obl += nobl
@@ -336,6 +339,7 @@ def report(plan, tier, seed, results, infra_msgs, wall, get_trace, update_baseli
         'rule': 'one evaluation = one verifier obligation (contract postcondition, loop-invariant base/step, UB/memory-safety assertion, lemma assertion) decided over fully symbolic inputs; distinct_nontrivial counts distinct jobs (function contracts / lemmas) fully discharged, reachability probe confirmed',
         'samples': samples,
         'undecided': undecided,
+        'attempted_not_decided (optional jobs: solver limit, never a violation, not counted as proved)': attempts,
         'not_decided_parts': plan.not_decided,
         'meta_arguments_not_machine_checked': plan.meta,
         'exhaustive': False,
